@@ -56,6 +56,11 @@ func (n *rawNamer) Name(typeName gengotypes.TypeName) string {
 		}
 	}
 
+	if pkgPath == "" && tn.Len() != 0 {
+		// path-less reference: a name of the target package itself
+		return tn.String()
+	}
+
 	if pkgPath == n.pkgPath {
 		if tn.Len() != 0 {
 			return tn.String()
